@@ -40,7 +40,7 @@ RULE = ('Configurations over all Buildable types (incl. ArgFactory inside Partia
         'generator accepted the configuration and it has >=2 Buildables; distinct = (canon hash, '
         'generator, options).')
 RULE_ADDITIONS = (' Added by the rounds of seeded changes (DESIGN 9.7): ' +
-                  'exec-fails:with_tags-in-plain-generator | NameError | decide after reproduction (emit Tag.new(...)); positional gaps (must be refused); callables with class-typed return annotations; list / tuple / dict sub-fixtures; functools.partial leaves (known finding); values from a module named like the parameter; symbol lists as sub-fixtures; container roots; dict keys that are symbols (known finding)')
+                  'exec-fails:with_tags-in-plain-generator | NameError | decide after reproduction (emit Tag.new(...)); positional gaps (must be refused); callables with class-typed return annotations; list / tuple / dict sub-fixtures; functools.partial leaves (known finding); values from a module named like the parameter; symbol lists as sub-fixtures; container roots; dict keys that are symbols (known finding); one tuple under the same argument name of two nodes')
 RULE = RULE + RULE_ADDITIONS
 ASSUMPTIONS = [
     'a generator exception is a loud refusal (allowed), an inexact program is not',
